@@ -3,6 +3,7 @@
  * Copyright(c) 2024 Ericsson AB
  */
 
+#include <errno.h>
 #include <sys/queue.h>
 
 #include "util.h"
@@ -96,10 +97,31 @@ int attr_node_value_set(const struct attr_node *value_node, const void *value,
 				 value, len);
 }
 
+static size_t fixed_value_size(enum xcm_attr_type type)
+{
+    switch (type) {
+    case xcm_attr_type_bool:
+	return sizeof(bool);
+    case xcm_attr_type_int64:
+	return sizeof(int64_t);
+    case xcm_attr_type_double:
+	return sizeof(double);
+    default:
+	return 0;
+    }
+}
+
 int attr_node_value_get(const struct attr_node *value_node, void *value,
 			size_t capacity)
 {
     ut_assert(value_node->type == attr_node_type_value);
+
+    /* the getters of the fixed-size types copy the value without
+       consulting 'capacity' */
+    if (capacity < fixed_value_size(value_node->value.type)) {
+	errno = EOVERFLOW;
+	return -1;
+    }
 
     return value_node->value.get(value_node->value.s,
 				 value_node->value.context,
